@@ -22,7 +22,8 @@ TruncatedExponentialDiscreteDistribution::TruncatedExponentialDiscreteDistributi
   cond_(1 - exp(-lambda_ * tp_))
 {
   addParameter_(new Parameter("TruncExponential.tp", truncationPoint, Parameter::R_PLUS));
-  addParameter_(new Parameter("TruncExponential.lambda", lambda,  Parameter::R_PLUS));
+  // lambda = 0 makes the normalising constant 0 and every class bound NaN (the discretisation then never terminates)
+  addParameter_(new Parameter("TruncExponential.lambda", lambda,  Parameter::R_PLUS_STAR));
 
   intMinMax_->setLowerBound(0, true);
   intMinMax_->setUpperBound(tp_, false);
